@@ -139,7 +139,8 @@ func checkC06(r *mon.Run) {
 			}
 		}
 	})
-	r.Require(1000, 100, "allowed_forwarded", "illegal_rejected_scmp", "inside_xover_rejected_scmp")
+	c06SaturationPhase(r)
+	r.Require(1000, 100, "allowed_forwarded", "illegal_rejected_scmp", "inside_xover_rejected_scmp", "saturation_injected", "saturation_round_with_unanswered_packets")
 }
 
 var c06ModeName = []string{"same-seg", "seg-change", "peering"}
